@@ -398,6 +398,41 @@ class Out(object):
         return self
 
 
+CASE_TIMEOUT = int(os.environ.get("VERIF_CASE_TIMEOUT", "150"))
+
+
+class CaseTimeout(BaseException):
+    pass
+
+
+class case_watchdog(object):
+    """Wall-clock watchdog around one case (main thread of the worker process only): turns an endless loop in the code under
+    test into CaseTimeout.  It never fires on the unchanged tree unless a case takes 150 s instead of milliseconds."""
+
+    def __init__(self, seconds):
+        self.seconds = seconds
+
+    def __enter__(self):
+        import signal
+        import threading
+
+        self.armed = threading.current_thread() is threading.main_thread()
+        if self.armed:
+            def fire(signum, frame):
+                raise CaseTimeout()
+            self.old = signal.signal(signal.SIGALRM, fire)
+            signal.setitimer(signal.ITIMER_REAL, self.seconds)
+        return self
+
+    def __exit__(self, *a):
+        if self.armed:
+            import signal
+
+            signal.setitimer(signal.ITIMER_REAL, 0)
+            signal.signal(signal.SIGALRM, self.old)
+        return False
+
+
 def drive(part, leg, cases, shard, nshards, evaluate, encode=repr):
     """Evaluates every case of `cases` that belongs to this shard.
 
@@ -405,11 +440,24 @@ def drive(part, leg, cases, shard, nshards, evaluate, encode=repr):
     evaluate(case) -> Out.  An exception escaping `evaluate` is a harness error.
     """
     part.leg = leg
+    prop = os.environ.get("VERIF_PROPERTY", "C00")
+    timeouts = 0
     for i, case in enumerate(cases):
         if i % nshards != shard:
             continue
         try:
-            out = evaluate(case)
+            with case_watchdog(CASE_TIMEOUT if not timeouts else 10):
+                out = evaluate(case)
+        except CaseTimeout:
+            timeouts += 1
+            # the code under test spins without ever calling back into the harness: a verdict, not a harness error
+            part.case(nontrivial_key=(leg, encode(case)), cls="does-not-terminate", sample=None, leg=leg)
+            part.violation("%s/case-does-not-terminate" % prop, {"leg": leg, "index": i, "case": encode(case)},
+                           "case %s of leg %s did not finish within %d s of wall-clock time (cases of this leg take milliseconds)" % (encode(case)[:300], leg, CASE_TIMEOUT), rank=i)
+            if timeouts >= 3:
+                part.notes.setdefault("legs_abandoned", []).append("%s shard %d: abandoned after 3 non-terminating cases" % (leg, shard))
+                return
+            continue
         except Exception:
             part.error("evaluate crashed in leg %s on case %r:\n%s" % (leg, case, traceback.format_exc()))
             if len(part.errors) > 3:
